@@ -182,6 +182,8 @@ def run_C05(ctx, rng, tier, res, known):
         cases += gens.gen_random_valid(rng, f, 2000 if q else 100000)
         cases += truncated_compact_cases(rng, f, 400 if q else 20000)
         cases += gens.gen_seams(rng, f)[::2]
+        cases += gens.gen_bigint_ties(rng, f, 1200 if q else 30000)
+        cases += _mod().cases_long(rng, "quick", f)[:: (6 if q else 1)]
     impl, model = _mod().check_pf("C05", cases, ctx.cfgs, ctx.profiles, res, known)
     # cross-configuration equality (even where a spec mismatch was already reported)
     lines = [c[0].split(" ## ")[0] for c in cases]
